@@ -84,6 +84,32 @@ def family(tier, rnd):
     add("method-of-number", prog([mark("a"), ex(mcall(num(5), "nope")), mark("dead")]))
     add("object-passed-to-function-shared", prog([decl("O", new("J")), ex(call("touch", O)), disp(mem(O, "v")), ex(num(0))], funcs=[func("touch", ["X"], [ex(asg(mem(var("X"), "v"), num(77))), ret(num(0))])], classes=[J]))
     add("method-result-feeds-call", prog([decl("O", new("K", num(1), num(2))), disp(call("dbl", mcall(O, "get"))), ex(num(0))], funcs=[func("dbl", ["X"], [ret(bin_("mul", var("X"), num(2)))])], classes=[K]))
+    # in-place mutators of numbers (自增 / 自减) on default property values: every instance has its own defaults
+    C = cls("C", [("n", num(0)), ("t", s("x")), ("f", b(False)), ("l", lst(num(1)))],
+            methods=[func("hit", [], [ex(mcall(this("n"), "@incr", num(1))), ret(this("n"))]),
+                     func("back", ["K"], [ex(mcall(this("n"), "@decr", var("K"))), ret(this("n"))])])
+    add("inplace-default-number-own", prog([decl("O", new("C")), decl("O2", new("C")), ex(mcall(O, "hit")), ex(mcall(O, "hit")), ex(mcall(O, "hit")),
+                                            disp(mem(O, "n"), mem(O2, "n")), decl("O3", new("C")), disp(mem(var("O3"), "n")), ex(mcall(O2, "back", num(5))),
+                                            disp(mem(O, "n"), mem(O2, "n"), mem(var("O3"), "n")), decl("O4", new("C")), disp(mem(var("O4"), "n")), ex(num(0))], classes=[C]))
+    add("inplace-through-member", prog([decl("O", new("C")), decl("O2", new("C")), ex(mcall(mem(O, "n"), "@incr", num(7))), disp(mem(O, "n"), mem(O2, "n")),
+                                        decl("O3", new("C")), disp(mem(var("O3"), "n")), ex(num(0))], classes=[C]))
+    add("inplace-variable-and-element", prog([decl("A", num(1)), decl("B", var("A")), ex(mcall(var("A"), "@incr", num(4))), disp(var("A"), var("B")),
+                                              decl("L", lst(num(1), num(2))), decl("M", var("L")), ex(mcall(idx(var("L"), num(2)), "@decr", num(1))), disp(var("L"), var("M")), ex(num(0))]))
+    add("inplace-in-ctor-default", prog([decl("O", new("D")), decl("O2", new("D")), disp(mem(O, "n"), mem(O2, "n")), ex(num(0))],
+        classes=[cls("D", [("n", num(10))], ctor=func("D", [], [ex(mcall(this("n"), "@incr", num(1)))]))]))
+    # a call with the wrong number of arguments fails in the CALLER: the callee's own handlers never see it
+    for n_ in (0, 1, 2):
+        params = ["X%d" % i for i in range(1, n_ + 1)]
+        h = func("H", params, [mark("H-body"), ret(num(1))], [catch("@exc", [mark("H-handler"), ret(num(-1))])])
+        for m in range(0, 4):
+            if m == n_: continue
+            add("arity-callee-handler-%d-%d" % (n_, m), prog([mark("s"), decl("R", call("H", *[P(i + 1) for i in range(m)])), disp(var("R")), mark("dead")], funcs=PROBES + [h]))
+            add("arity-callee-handler-caught-outside-%d-%d" % (n_, m), prog([disp(call("W")), mark("e"), ex(num(0))],
+                funcs=PROBES + [h, func("W", [], [decl("R", call("H", *[P(i + 1) for i in range(m)])), ret(var("R"))], [catch("@exc", [mark("W-handler"), ret(num(-2))])])]))
+    MH = cls("MH", [("v", num(1))], ctor=func("MH", ["A"], [ex(asg(this("v"), var("A")))], [catch("@exc", [mark("ctor-handler")])]),
+             methods=[func("m", ["A"], [ret(var("A"))], [catch("@exc", [mark("m-handler"), ret(num(-1))])])])
+    add("arity-method-with-handler", prog([decl("O", new("MH", num(1))), mark("a"), disp(mcall(var("O"), "m")), mark("dead")], classes=[MH]))
+    add("arity-ctor-with-handler", prog([mark("a"), decl("O", new("MH")), mark("dead")], classes=[MH]))
     # random call graphs
     n = 1500 if tier == "quick" else 20000
     for i in range(n):
